@@ -1,7 +1,7 @@
 """C15 — standard-library forms and user macros equal their defining equations."""
 import random
 
-from . import framework, gen_trace, gen_expr, session
+from . import framework, gen_trace, gen_expr, impl, session, wire
 
 SETUP = ['(define x 3)', '(define y 0)', '(define n 2)', "(define xs '(1 2 3))"]
 PROBE = '(list x y n INDEX)'
@@ -194,12 +194,55 @@ class C15(framework.PropertyCheck):
             yield {'kind': k, 'form': form, 'eq': eq, 'V': V, 'start': rng.randrange(6)}
 
     _trace = None
+    _den = None
 
     def _vcd(self):
         if C15._trace is None:
-            vf, _ = gen_trace.simple_vcd(random.Random(9), 6, sigs=gen_expr.SIGS)
+            vf, C15._den = gen_trace.simple_vcd(random.Random(9), 6, sigs=gen_expr.SIGS)
             C15._trace = gen_trace.render(vf)
         return C15._trace
+
+    def temporal_reference(self, form, start):
+        """absolute meaning of the temporal forms ("current versus next index"), independent of reval: value of `form` at index
+        `start` over the trace's denotation; -> (value,) or None when the form uses anything outside the temporal calculus"""
+        from wal.ast_defs import Symbol, Operator
+        self._vcd()
+        den = C15._den
+        n = len(den['timestamps'])
+
+        class Outside(Exception):
+            pass
+
+        def ev(e, i):
+            if isinstance(e, bool) or isinstance(e, int):
+                return e
+            if isinstance(e, Symbol):
+                if e.name == 'INDEX':
+                    return i
+                if e.name in den['values']:
+                    return den['values'][e.name][i]
+                raise Outside()
+            if isinstance(e, (list,)) or hasattr(e, 'data'):
+                e = list(e)
+                h = e[0]
+                name = h.value if isinstance(h, Operator) else h.name if isinstance(h, Symbol) else None
+                if name == 'list':
+                    return [ev(x, i) for x in e[1:]]
+                if name == 'reval' and isinstance(e[2], int):
+                    return ev(e[1], i + e[2]) if 0 <= i + e[2] < n else False
+                if name in ('rising', 'falling', 'stable', 'unstable') and len(e) == 2:
+                    cur = ev(e[1], i)
+                    nxt = ev(e[1], i + 1) if i + 1 < n else False      # beyond the last index a relative read gives #f
+                    if name == 'rising':
+                        return bool(cur == 0) and bool(nxt == 1)
+                    if name == 'falling':
+                        return bool(cur == 1) and bool(nxt == 0)
+                    return (cur == nxt) if name == 'stable' else (cur != nxt)
+            raise Outside()
+        try:
+            return (ev(impl.parse(form), start),)
+        except Outside:
+            return None
 
     def _steps(self, case, expr):
         st = [('loadvcd', 't0', self._vcd())] + [('eval', 'eor', s) for s in SETUP]
@@ -248,6 +291,14 @@ class C15(framework.PropertyCheck):
             twin = session.run_impl(st)
             what = '(m args...) differs from the expansion reported by macroexpand'
         else:
+            if case['kind'] in ('rising', 'falling', 'stable', 'unstable', 'nested-temporal'):
+                ref = self.temporal_reference(case['form'], min(case['start'], 5))
+                k0 = len(iobs) - 2
+                if ref is not None and k0 >= 0 and iobs[k0][0] == 'ok':
+                    want = ('L', True, (wire.canon(ref[0]),))
+                    if _nokind(iobs[k0][1]) != _nokind(want):
+                        return {'what': 'temporal form differs from its meaning over the trace (current versus next index; index unchanged afterwards)',
+                                'form': case['form'], 'start': case['start'], 'got': iobs[k0][1], 'want': want}
             twin = session.run_impl(self._steps(case, case['eq']))
             what = 'library form differs from its defining expression'
         k = len(twin) - 2
@@ -263,6 +314,10 @@ class C15(framework.PropertyCheck):
 
     def classify(self, case):
         return case['kind']
+
+
+def _nokind(c):
+    return ('L', tuple(_nokind(x) for x in c[2])) if c[0] == 'L' else c
 
 
 CHECK = C15()
